@@ -486,6 +486,11 @@ class CausalInference(object):
         [1] Perkovic, Emilija, et al. "Complete graphical characterization and construction of adjustment sets in Markov equivalence classes of ancestral graphs." The Journal of Machine Learning Research 18.1 (2017): 8132-8193.
         """
         backdoor_graph = self.get_proper_backdoor_graph([X], [Y], inplace=False)
+        # Descendants of X (e.g. mediators, which are parents of Y) must not be adjusted
+        # for. Treat them like unobserved variables when searching for the separator.
+        backdoor_graph.latents = set(backdoor_graph.latents) | (
+            nx.descendants(self.model, X) - {Y}
+        )
         return backdoor_graph.minimal_dseparator(X, Y)
 
     def query(
